@@ -196,7 +196,7 @@ func DrawNodeFlags(t *rapid.T, label string) NodeFlags {
 		Trace:                 rapid.Bool().Draw(t, label+"trace"),
 		TraceStore:            rapid.Bool().Draw(t, label+"traceStore"),
 		IndexEvents:           rapid.Bool().Draw(t, label+"indexEvents"),
-		HaltHeight:            []uint64{0, 1_000_000}[rapid.IntRange(0, 1).Draw(t, label+"haltHeight")],
+		HaltHeight:            []uint64{0, 4_000_000_000}[rapid.IntRange(0, 1).Draw(t, label+"haltHeight")],
 	}
 }
 
